@@ -55,7 +55,6 @@ func c09Anchors(c *Ctx) *c09A {
 	a.autoTA = c.fn(r, pkg+".(*Resolver).AutoTA")
 	a.newRes = c.fn(r, pkg+".NewResolver")
 	a.verifyFn = c.fn(r, pkg+".verifyFetchedKeysWithWork")
-	a.stageFn = c.fn(r, pkg+".stageRevocationSelfSignatures")
 	a.sameKeyFn = c.fn(r, pkg+".sameKeyExceptRevoke")
 	a.selfFn = c.fn(r, pkg+".revocationIsSelfSignedWithWork")
 	a.gobFn = c.fn(r, pkg+".atomicGobWrite")
@@ -80,8 +79,12 @@ func c09Anchors(c *Ctx) *c09A {
 	a.gobWrite = c.fobj(r, pkg+".atomicGobWrite")
 	a.syncDir = c.fobj(r, pkg+".syncDir")
 	a.verify = c.fobj(r, pkg+".verifyFetchedKeysWithWork")
-	a.stage = c.fobj(r, pkg+".stageRevocationSelfSignatures")
 	a.selfSigned = c.fobj(r, pkg+".revocationIsSelfSignedWithWork")
+	// the staging function is identified by what it does, not by its name: the
+	// function AutoTA calls that runs the self-signature verification (F-C09-6
+	// moved the staging logic into a record-keyed function and left the old
+	// name as an adapter for a unit test)
+	a.stageFn, a.stage = c09StagingFn(c, r, a.autoTA, a.selfSigned)
 	a.sameKey = c.fobj(r, pkg+".sameKeyExceptRevoke")
 	a.fp = c.fobj(r, pkg+".dnskeyMaterialFP")
 	a.verifyRRSIG = c.fobj(r, pkg+"/dnssec.VerifyRRSIGWithWork")
@@ -652,7 +655,7 @@ func c09R2R3AutoTA(c *Ctx, a *c09A) {
 	muts := instrsWhere(fn, a.mutation)
 	c.c09FromNoReach("C09-R2", fn, "mutation downstream of the fetch", fetch, muts, OnTrue("verifyFetchedKeysWithWork ok", ResultOf(0, a.verify)))
 	c.c09FromNoReach("C09-R2", fn, "mutation downstream of staging", stageCalls, muts, OnFalse("stageRevocationSelfSignatures err", ResultOf(1, a.stage)))
-	c.Floor("C09-R2", 1+2+20+17) // trusted key map, 2 ok returns, 20 mutations after the fetch, 17 after staging
+	c.Floor("C09-R2", 1+2+19+17) // trusted key map, 2 ok returns, 19 mutations after the fetch (F-C09-6: the fetched keys are collected in a slice, the tag-keyed map and its insert are gone), 17 after staging
 
 	revOnlyFalse := OnFalse("revocationOnly", ResultOf(1, a.verify))
 	grow := instrsWhere(fn, func(in ssa.Instruction) bool {
